@@ -13,5 +13,14 @@ class QuaTimedList(TimedList[Item]):
         ...
 
     @staticmethod
+    def _drop_missing(records: List[Dict[str, Any]]) -> List[Dict[str, Any]]:
+        """Quaver leaves out keys that have no value: objects read without
+        e.g. a HitSound must not be written with ``HitSound: .nan``"""
+        return [
+            {k: v for k, v in r.items() if not (isinstance(v, float) and v != v)}
+            for r in records
+        ]
+
+    @staticmethod
     def from_yaml(dicts: List[Dict[str, Any]]) -> QuaTimedList:
         ...
